@@ -63,6 +63,27 @@ PROPS["C13"] = dict(
     ],
 )
 
+PROPS["C14"] = dict(
+    level="exploration",
+    technique="property-based testing (rapid): round trip of generated argv through writeCmd/flushCmd and an independent RESP parser, lengths drawn at decimal digit boundaries; exhaustive length-line check for 0..12000 and around every power of ten",
+    level_text="Generated argument vectors with counts/lengths at every digit-count boundary and arbitrary bytes, parsed by an independent parser that must consume every byte; the digit loop itself is compared exhaustively with strconv on 12k+ lengths.",
+    level_note="The independent parser (kit/resp) is trusted. End-to-end framing on a live connection is covered again by the C01/C33 bubble checks. " + LIMITS,
+    units=[
+        U("inpkg", "rueidis", "TestVerif_C14_Lengths", T(1), T(1)),
+        U("inpkg", "rueidis", "TestVerif_C14_WriteCmd", T(3000), T(20000, shards=16)),
+    ],
+)
+
+PROPS["C17"] = dict(
+    level="exploration",
+    technique="property-based testing (rapid): marshal/unmarshal round trip on generated reply trees plus exhaustive truncation of each output; native Go fuzzing of arbitrary buffers (thorough)",
+    level_text="Generated trees and expiries round-tripped through CacheMarshal/CacheUnmarshalView with size and cache-hit checks; every truncation point of each case is tried (exhaustive per case up to 600 bytes).",
+    level_note="Trees are built directly as RedisMessage values the way the decoder builds them. " + LIMITS,
+    units=[
+        U("inpkg", "rueidis", "TestVerif_C17_CacheRoundTrip", T(4000), T(40000, shards=16)),
+    ],
+)
+
 # ---- END PROPS (new entries go above this line)
 
 # every property without a check is listed here with its reason (kept current while building)
